@@ -67,7 +67,10 @@ Definition issue1 (last : N) (r : req) : N * N :=
 (* input: a request is issued, or the j-th issued request (0-based, counting every request) ends:
    the peer acknowledges it, or its caller abandons it (context cancelled / timed out) — for the
    bookkeeping of identifiers both simply end the request *)
-Inductive hev := HReq (r : req) | HAck (j : N).
+(* HIn q id: a packet arrives from the broker carrying identifier id — an inbound PUBLISH with QoS q
+   (0, 1, 2) or, q = 3, an inbound PUBREL. Identifiers of the two directions are independent name
+   spaces (MQTT 3.1.1 section 2.3.1); serve.go never touches idLast: the event changes nothing. *)
+Inductive hev := HReq (r : req) | HAck (j : N) | HIn (q id : N).
 
 (* observable: request r of caller k went out with identifier id (for QoS 0 the identifier is
    what Publish left in Message.ID); the j-th request was acknowledged *)
@@ -79,6 +82,7 @@ Fixpoint run_seq (last : N) (h : list hev) : list obs :=
   | [] => []
   | HReq r :: rest => let '(last', id) := issue1 last r in OIssue 0 r id :: run_seq last' rest
   | HAck j :: rest => OAck j :: run_seq last rest
+  | HIn _ _ :: rest => run_seq last rest
   end.
 
 Fixpoint final_counter (last : N) (h : list hev) : N :=
@@ -86,12 +90,13 @@ Fixpoint final_counter (last : N) (h : list hev) : N :=
   | [] => last
   | HReq r :: rest => final_counter (fst (issue1 last r)) rest
   | HAck _ :: rest => final_counter last rest
+  | HIn _ _ :: rest => final_counter last rest
   end.
 
 (* ---------- any number of concurrent callers ---------- *)
 
 (* a schedule entry: caller k performs its next atomic step, or the peer acknowledges request j *)
-Inductive label := LStep (k : nat) | LAck (j : N).
+Inductive label := LStep (k : nat) | LAck (j : N) | LIn (q id : N).   (* LIn: inbound packet, see HIn *)
 
 Fixpoint set_nth {A} (k : nat) (x : A) (l : list A) : list A :=
   match l, k with
@@ -120,6 +125,7 @@ Fixpoint run_conc (c : N) (progs : list (list req)) (sched : list label) : list 
   match sched with
   | [] => []
   | LAck j :: rest => OAck j :: run_conc c progs rest
+  | LIn _ _ :: rest => run_conc c progs rest
   | LStep k :: rest =>
       let '(c', progs', o) := step_caller c progs k in
       match o with
